@@ -519,7 +519,10 @@ class HyperscanTokenizer(Tokenizer):
                 start = byte_to_str_offset[start]
                 end = byte_to_str_offset[end]
                 m = extractor.compiled_regex.match(text[start:end])
-                yield extractor.get_token(m, offset=start)
+                if m:
+                    # hyperscan's byte-based classes can accept a hit that
+                    # the unicode-aware Python regex rejects
+                    yield extractor.get_token(m, offset=start)
 
     @property
     def hyperscan_db(self):
